@@ -130,7 +130,7 @@ typedef struct {
     int      early_data;     /* 1.3 PSK: 1 = credential and server session allow early data; 2 = the credential allows it but the server SESSION disabled it (tls13SessionMaxEarlyData 0) */
     int      resume13;       /* TLS 1.3: world_init first runs a complete connection (server session with early data enabled when early_data != 0) so that the sessions under test resume with its NewSessionTicket */
     int      early_send;     /* the honest client sends one early-data record right after its ClientHello */
-    int      tickets;        /* load session ticket keys on server, client asks */
+    int      tickets;        /* 1: load session ticket keys on server, client asks; 2: the client asks, the server has none */
     int      pmtu;           /* DTLS: 0 default */
     int      bogus_psk;      /* TLS 1.3 certificate modes: the client additionally offers an external PSK the server does not know */
     int      bad_server_cert;/* client CA list does not contain server's issuer */
